@@ -16,6 +16,9 @@ import VotelibProofs.Lemmas.PermSymmetric
 import VotelibProofs.Lemmas.PermCondorcetRules
 import VotelibProofs.Lemmas.PermApproval
 import VotelibProofs.Lemmas.PermScore
+import VotelibProofs.Lemmas.RenameApproval
+import VotelibProofs.Lemmas.RenameScore
+import VotelibProofs.Lemmas.RenameCondorcetConvert
 namespace VL.C10
 open VL
 
@@ -302,6 +305,34 @@ theorem score_convert_perm (cfg : Score.Cfg) {p₁ p₂ : Score.SProfile} (h : p
 /-- **Score voting (mean / sum / median, unscored value, min count, truncation): ballot-order independence** -/
 theorem score_voting_perm (cfg : Score.Cfg) {p₁ p₂ : Score.SProfile} (h : p₁.Perm p₂) (n : Nat) :
     ExceptEquiv SlotsEquiv (Score.scoreVoting cfg p₁ n) (Score.scoreVoting cfg p₂ n) := Perm.scoreVoting_perm cfg h n
+
+/-- **SPAV: renaming equivariance** for every injective renaming — the renamed outcome, in the same order -/
+theorem spav_rename (σ : Cand → Cand) (hσ : Function.Injective σ) (p : Appr.Profile) (hwf : Appr.WF p) (n : Nat) :
+    Appr.spav (Perm.renAppr σ p) n = (Appr.spav p n).map (List.map σ) := Perm.spav_rename hσ p hwf n
+
+/-- **PAV: renaming equivariance** — the renamed outcome up to the order of equally placed winners -/
+theorem pav_rename (σ : Cand → Cand) (hσ : Function.Injective σ) (p : Appr.Profile) (hwf : Appr.WF p) (n : Nat) :
+    ExceptEquiv (fun r' r => SlotsEquiv r' (r.map (renSlot σ))) (Appr.pav (Perm.renAppr σ p) n) (Appr.pav p n) :=
+  Perm.pav_rename hσ p hwf n
+
+/-- **Score voting: renaming equivariance** for every injective renaming -/
+theorem score_voting_rename (σ : Cand → Cand) (hσ : Function.Injective σ) (cfg : Score.Cfg) (p : Score.SProfile) (n : Nat) :
+    Score.scoreVoting cfg (Perm.renScore σ p) n = (Score.scoreVoting cfg p n).map (List.map (renSlot σ)) :=
+  Perm.scoreVoting_rename hσ cfg p n
+
+/-- the same when the renamed ballots are presented in any order and list their (candidate, score) pairs in any order
+    (`Perm.SameBallots`, decidable) -/
+theorem score_voting_rename_same (σ : Cand → Cand) (hσ : Function.Injective σ) (cfg : Score.Cfg) (p p' : Score.SProfile)
+    (h : Perm.SameBallots p' (Perm.renScore σ p)) (n : Nat) :
+    ExceptEquiv (fun r' r => SlotsEquiv r' (r.map (renSlot σ))) (Score.scoreVoting cfg p' n) (Score.scoreVoting cfg p n) :=
+  Perm.scoreVoting_rename_same hσ cfg p p' h n
+
+/-- **RankedToCondorcetVotes: renaming equivariance** (duplicate-free ballots): the pairwise dict of the renamed profile is
+    the renamed pairwise dict up to insertion order -/
+theorem ranked_to_condorcet_rename (σ : Cand → Cand) (hσ : Function.Injective σ) (ab : Bool) (p : Convert.RProfile)
+    (hb : ∀ bw ∈ p, (Convert.ballotCands bw.1).Nodup) :
+    (Convert.rankedToCondorcet ab (Perm.renRProfile σ p)).Perm (Perm.renPairwise σ (Convert.rankedToCondorcet ab p)) :=
+  Perm.rankedToCondorcet_ren σ hσ ab p hb
 
 /-! ## the symmetric-candidates corollary
   A renaming σ that maps the election onto a reordering of itself is a symmetry of the election (e.g. the transposition of two
